@@ -93,7 +93,7 @@ def PPc.dlag : PPc → Int
 
 /-- consumer holds the lock (write lock, or the read lock in `GetDepth`) -/
 def CPc.crit : CPc → Bool
-  | .dqIdx | .dqSlice _ | .dqDec _ | .daTake | .daNil _ | .daZero _ | .rqPrep _ | .rqInc _
+  | .dqChk | .dqIdx | .dqSlice _ | .dqDec _ | .daTake | .daNil _ | .daZero _ | .rqPrep _ | .rqInc _
   | .pubRecv _ | .pubSend _ | .unlock _ | .gdRead | .gdRUnlock _ => true
   | _ => false
 
@@ -108,6 +108,7 @@ def CInv (s : St) : Prop :=
   | .gSend _ d => d + s.ppc.lag = s.queue.length
   | .gTest _ d => 0 ≤ d ∧ d ≤ s.queue.length
   | .lock _ => (1 : Int) ≤ s.queue.length
+  | .dqChk => s.depth = s.queue.length ∧ (1 : Int) ≤ s.queue.length
   | .dqIdx => s.depth = s.queue.length ∧ (1 : Int) ≤ s.queue.length
   | .dqSlice b => s.depth = s.queue.length ∧ s.queue.head? = some b
   | .dqDec _ => s.depth = s.queue.length + 1
@@ -258,6 +259,20 @@ theorem stepC_lock {s s' : St} {call : Call} (h : Inv s) (hs : stepC s call = so
     subst hl
     cases k <;> cases ppc <;> inv_close
   · cases hs
+
+theorem stepC_dqChk {s s' : St} {call : Call} (h : Inv s) (hs : stepC s call = some s') :
+    ∀ (_ : Unit), s.cpc = .dqChk → Inv s' := by
+  intro _ hc
+  obtain ⟨queue, depth, token, lock, ppc, cpc, produced, clog, rets⟩ := s
+  simp only at hc
+  subst hc
+  obtain ⟨h1, h2, h3, h4, h5, h6, h7, h8, h9, h10⟩ := h
+  simp only [stepC] at hs
+  split at hs
+  · cases hs
+    cases ppc <;> inv_close
+  · cases hs
+    cases ppc <;> inv_close
 
 theorem stepC_dqIdx {s s' : St} {call : Call} (h : Inv s) (hs : stepC s call = some s') :
     ∀ (_ : Unit), s.cpc = .dqIdx → Inv s' := by
@@ -439,6 +454,7 @@ theorem stepC_gdRUnlock {s s' : St} {call : Call} (h : Inv s) (hs : stepC s call
   cases hs
   cases ppc <;> inv_close
 
+set_option maxHeartbeats 400000 in
 theorem inv_stepP {s s' : St} {b : Bytes} (h : Inv s) (hs : stepP s b = some s') : Inv s' := by
   obtain ⟨queue, depth, token, lock, ppc, cpc, produced, clog, rets⟩ := s
   obtain ⟨h1, h2, h3, h4, h5, h6, h7, h8, h9, h10⟩ := h
@@ -492,6 +508,7 @@ theorem inv_stepC {s s' : St} {call : Call} (h : Inv s) (hs : stepC s call = som
   | gSend k d => exact stepC_gSend h hs k d hc
   | gTest k d => exact stepC_gTest h hs k d hc
   | lock k => exact stepC_lock h hs k hc
+  | dqChk => exact stepC_dqChk h hs () hc
   | dqIdx => exact stepC_dqIdx h hs () hc
   | dqSlice b => exact stepC_dqSlice h hs b hc
   | dqDec b => exact stepC_dqDec h hs b hc
